@@ -1132,6 +1132,42 @@ theorem daemon_restart_running (ops : List Op) (hk : ∀ op ∈ ops, op.isKill =
     · simp only [List.mem_singleton] at h; subst h; rfl) s (by simpa [run, List.foldl_append] using hs) hr
   simpa [run, List.foldl_append] using this
 
+/-! ## 10. The daemon's replacement service records the RPC port of the service it replaces (K-s-rpcshare) -/
+
+/-- Full statement (FALSE of the code): a daemon restart without retained peer id keeps the recorded ports pairwise
+distinct. -/
+def ReplacementGetsOwnPort : Prop :=
+  ∀ (w : World) (i : Nat) (faults : List Fault), (allPorts w.reg).Nodup →
+    (allPorts (step w (.drestart i false faults)).reg).Nodup
+
+/-- `restart_node_service(.., retain_peer_id = false)` copies `rpc_socket_addr` from the stopped service into the
+replacement it installs and records: two entries record one RPC port (and the replacement is started on it). -/
+theorem replacement_shares_rpc_port_witness : ¬ ReplacementGetsOwnPort := by
+  intro h
+  have := h (run World.init [.add 1 none none none false 1 [], .start 0 false []]) 0 [] (by decide)
+  revert this
+  decide
+
+/-- What follows: `antctl start` of the replaced service launches its process next to the replacement; the node RPC on
+the shared port is answered by the replacement (the first to bind), so the old entry records the replacement's peer id. -/
+theorem replacement_answers_for_the_replaced :
+    (run World.init [.add 1 none none none false 1 [], .start 0 false [], .drestart 0 false [], .start 0 false []]).reg.map
+      (fun t => (t.number, t.status, t.rpcPort, t.peer)) = [(1, .running, 30000, some 2), (2, .running, 30000, some 2)] := by
+  decide
+
+/-! ## 11. `NodeRegistry::load`: the loaded registry saves where it was SAVED, not where it was loaded from -/
+
+/-- Full statement (FALSE of the code). -/
+def LoadSavesWhereLoaded : Prop := ∀ fs path r, loadReg fs path = some r → r.savePath = path
+
+/-- `save_path` is a serialised field and `load` returns what it deserialises: a registry file copied or moved to
+another place loads with the old `save_path`, and the next `save` goes there. (Observation outside the clauses: antctl
+and antctld always load from `config::get_node_registry_path()`. Replayed on the real code by `probe-moved-registry`.) -/
+theorem load_saves_where_loaded_witness : ¬ LoadSavesWhereLoaded := by
+  intro h
+  have := h (copyFile (saveReg [] ⟨0, []⟩) 0 1) 1 ⟨0, []⟩ (by decide)
+  exact absurd this (by decide)
+
 /-! ## Non-vacuity -/
 
 -- add two services with the first install failing, then add one more: numbers 2 and 3 (the F-s history)
@@ -1203,6 +1239,26 @@ example : (run World.init [.add 1 none none none false 1 [], .start 0 false [], 
 -- a `start` that launches the process and then reports failure leaves it unrecorded (K-s-orphan)
 example : (run World.init [.add 1 none none none false 1 [], .start 0 false [.failAfter]]).os.procs = [⟨100, 1, 40100, 30000⟩] := by decide
 
+-- a whole `antctl stop` whose service-manager call kills and then reports failure: the stop is recorded AND saved
+example : (runS Sys.init [.op (.add 1 none none none false 1 []), .op (.start 0 false []), .cmd (.stop 0 [.failAfter])]).file.map
+    (fun t => (t.status, t.pid)) = [(.stopped, none)] := by decide
+-- `antctl stop` after a start whose RPC query failed (unrecorded live process): the refresh records it, the stop kills it
+example : (runS Sys.init [.op (.add 1 none none none false 1 []), .op (.start 0 false [.ok, .fail]), .cmd (.stop 0 [])]).w.os.procs
+    = [] := by decide
+example : (execS (runS Sys.init [.op (.add 1 none none none false 1 []), .op (.start 0 false [.ok, .fail])]) (.cmd (.stop 0 []))).2.1.failed
+    = false := by decide
+-- ... the bare ServiceManager::stop leaves it alive (K-s-orphan)
+example : (runS Sys.init [.op (.add 1 none none none false 1 []), .op (.start 0 false [.ok, .fail]), .op (.stop 0 [])]).w.os.procs
+    = [⟨100, 1, 40100, 30000⟩] := by decide
+-- a removed service is not found by a command
+example : (execS (runS Sys.init [.op (.add 1 none none none false 1 []), .cmd (.remove 0 false [])]) (.cmd (.start 0 false []))).2.1.text
+    = "err:no-such-service" := by decide
+-- requested ranges that share a port are refused; disjoint ones are recorded at the service's offset
+example : (result World.init (.add 2 (some (8000, 8001)) (some (8001, 8002)) none false 1 [])).text = "err:port-requested-twice:8001" := by
+  decide
+example : (run World.init [.add 2 (some (8000, 8001)) (some (8002, 8003)) (some (8004, 8005)) false 1 []]).reg.map svcPorts
+    = [[8002, 8000, 8004], [8003, 8001, 8005]] := by decide
+
 end SafeNet.Props.C19
 
 #print axioms SafeNet.Props.C19.running_has_process
@@ -1235,3 +1291,6 @@ end SafeNet.Props.C19
 #print axioms SafeNet.Props.C19.refresh_records_live
 #print axioms SafeNet.Props.C19.daemon_restart_saves
 #print axioms SafeNet.Props.C19.daemon_restart_running
+#print axioms SafeNet.Props.C19.replacement_shares_rpc_port_witness
+#print axioms SafeNet.Props.C19.replacement_answers_for_the_replaced
+#print axioms SafeNet.Props.C19.load_saves_where_loaded_witness
